@@ -598,6 +598,17 @@ impl Model {
                         && rq.payload.len() >= 24
                         && rq.payload[0] == 135
                         && rp.payload.first() == Some(&136);
+                    if re.et == ET_IP6 && rp.proto == P_ICMP6 && rp.payload.len() >= 24 && rp.payload[0] == 136 {
+                        let mut adv = [0u8; 16];
+                        adv.copy_from_slice(&rp.payload[8..24]);
+                        if !in_self(cfg, &Ip::V6(adv)) {
+                            j.findings.push(finding(
+                                "C02",
+                                "na-advertises-foreign",
+                                format!("neighbour advertisement for {} which is not in the self-IP list", Ip::V6(adv)),
+                            ));
+                        }
+                    }
                     if is_nd {
                         let mut t = [0u8; 16];
                         t.copy_from_slice(&rq.payload[8..24]);
